@@ -31,7 +31,7 @@ pub fn plan05(tier: Tier) -> Plan {
             }
         }
     }
-    let (mw, n) = if tier == Tier::Quick { (3, 300) } else { (4, 10_000) };
+    let (mw, n) = if tier == Tier::Quick { (3, 1000) } else { (4, 10_000) };
     for p in pgrid() {
         checks.push(Box::new(QLasso { mode: Mode::C05, p, max_word: mw, n }));
     }
@@ -127,7 +127,7 @@ pub fn plan15(tier: Tier) -> Plan {
             }
         }
     }
-    let (mw, n) = if tier == Tier::Quick { (3, 300) } else { (4, 10_000) };
+    let (mw, n) = if tier == Tier::Quick { (3, 1000) } else { (4, 10_000) };
     for p in pgrid() {
         checks.push(Box::new(QLasso { mode: Mode::C15, p, max_word: mw, n }));
     }
